@@ -49,7 +49,8 @@ type Replica struct {
 	gotRem bool // has applied at least one remote operation of another replica (beyond the creation snapshot)
 	hasLoc bool // has issued at least one local operation
 	stale  map[string]orda.Document
-	recv   []string // ids of remote operations applied, in order
+	txh    orda.Document // a handle the application took inside the body of its last transaction and kept
+	recv   []string      // ids of remote operations applied, in order
 }
 
 // StepOut is what one call returned.
@@ -415,13 +416,23 @@ func (w *World) Key() (string, bool) {
 	nt := 0
 	for i, r := range w.reps {
 		meta, snap := r.Export()
-		fmt.Fprintf(h, "R%d|%s|%s|%s|%d|%d|%d\n", i, meta, snap, opsDigest(w.Pending(i)), r.cursor, r.pushed, r.nloc)
+		fmt.Fprintf(h, "R%d|%s|%s|%s|%d|%d|%d|%v\n", i, meta, snap, opsDigest(w.Pending(i)), r.cursor, r.pushed, r.nloc, r.txhUsable())
 		if r.gotRem && r.hasLoc {
 			nt++
 		}
 	}
 	fmt.Fprintf(h, "LOG|%s", opsDigest(w.log))
 	return hex.EncodeToString(h.Sum(nil)[:12]), nt >= 1
+}
+
+// txhUsable: the kept handle still shows a live object.
+func (r *Replica) txhUsable() (ok bool) {
+	defer func() {
+		if recover() != nil {
+			ok = false
+		}
+	}()
+	return r.txh != nil && !r.txh.IsGarbage() && r.txh.GetTypeOfJSON() == orda.TypeJSONObject
 }
 
 func (r *Replica) tag() string {
@@ -743,6 +754,12 @@ func (w *World) Local(a pt.Action) StepOut {
 				panic("inner: " + o.Panic)
 			}
 		}
+		if t.doc != nil && a.T != "@txh" && !a.Fail && !hasBadPatch(a) { // (a body that fails is absent from the twin history, and so are its handles)
+			// the body keeps a handle to a nested object for later (it is bound to this transaction's context)
+			if h, err := t.doc.GetFromObject("a"); err == nil && h != nil && h.GetTypeOfJSON() == orda.TypeJSONObject {
+				r.txh = h
+			}
+		}
 		if a.Fail {
 			return errTxFail
 		}
@@ -762,6 +779,9 @@ func (w *World) Local(a pt.Action) StepOut {
 			e = r.mp.Transaction("tx", func(m orda.MapInTx) error { return body(callTarget{mp: m}) })
 		case r.li != nil:
 			e = r.li.Transaction("tx", func(l orda.ListInTx) error { return body(callTarget{li: l}) })
+		case a.T == "@txh":
+			// a transaction opened on the handle kept from an earlier transaction's body
+			e = r.txh.Transaction("tx", func(d orda.DocumentInTx) error { return body(callTarget{doc: d}) })
 		default:
 			e = r.doc.Transaction("tx", func(d orda.DocumentInTx) error { return body(callTarget{doc: d}) })
 		}
